@@ -36,6 +36,25 @@ RE_FLOW = re.compile(
 )
 
 
+# attribute values that the directive option parser reads back verbatim (plain style)
+RE_OPTION_PLAIN = re.compile(r"[^\s\x00\"'|>#][^\s\x00#]*(?: [^\s\x00#]+)*")
+# characters that must be escaped inside a double-quoted option value
+RE_OPTION_ESCAPE = re.compile(r'[\\"\x00\n\x0b\x0c\r\x1c-\x1e\x85\u2028\u2029]')
+
+
+def option_line(key: str, value: str | None) -> str:
+    """Return the directive option line for an HTML attribute.
+
+    Values which are not safe as plain text are double-quoted (with escapes),
+    so that the option parser returns them unchanged.
+    """
+    value = value or ""
+    if value and not RE_OPTION_PLAIN.fullmatch(value):
+        value = RE_OPTION_ESCAPE.sub(lambda m: f"\\u{ord(m.group(0)):04x}", value)
+        value = f'"{value}"'
+    return f":{key}: {value}"
+
+
 def default_html(text: str, source: str, line_number: int) -> list[nodes.Element]:
     raw_html = nodes.raw("", text, format="html")
     raw_html.source = source
@@ -91,7 +110,7 @@ def html_to_nodes(
                     )
                 ]
             content = "\n".join(
-                f":{k}: {v}"
+                option_line(k, v)
                 for k, v in sorted(child.attrs.items())
                 if k in OPTION_KEYS_IMAGE
             )
@@ -115,7 +134,7 @@ def html_to_nodes(
             )
 
             options = "\n".join(
-                f":{k}: {v}"
+                option_line(k, v)
                 for k, v in sorted(child.attrs.items())
                 if k in OPTION_KEYS_ADMONITION
             ).rstrip()
